@@ -13,6 +13,16 @@ import (
 )
 
 // is32BitRegister checks if a register name corresponds to a 32-bit general-purpose register.
+func is16BitAddrRegister(regName string) bool {
+	switch regName {
+	case "BX", "BP", "SI", "DI":
+		return true
+	default:
+		return false
+	}
+}
+
+// is32BitRegister checks if a register name corresponds to a 32-bit general-purpose register.
 func is32BitRegister(regName string) bool {
 	switch regName {
 	case "EAX", "ECX", "EDX", "EBX", "ESP", "EBP", "ESI", "EDI":
@@ -133,13 +143,13 @@ func ModRMByOperand(modeStr string, regOperand string, rmOperand string, bitMode
 		}
 
 		// --- ModR/M and Displacement Calculation ---
-		modrmByte, sibByte, dispBytes, err := calculateModRM(memInfo, bitMode, regBits) // Pass regBits for context
+		modrmByte, sibByte, hasSIB, dispBytes, err := calculateModRM(memInfo, bitMode, regBits) // Pass regBits for context
 		if err != nil {
 			return nil, fmt.Errorf("failed to calculate ModR/M for '%s': %w", rmOperand, err)
 		}
 
 		out := []byte{modrmByte}
-		if sibByte != 0 { // Check if SIB byte is present
+		if hasSIB { // SIB 0x00 ([EAX+EAX]) も有効な SIB
 			out = append(out, sibByte)
 		}
 		if len(dispBytes) > 0 {
@@ -194,14 +204,14 @@ func ModRMByValue(modeStr string, regValue int, rmOperand string, bitMode cpu.Bi
 		}
 
 		// --- ModR/M and Displacement Calculation ---
-		modrmByte, sibByte, dispBytes, err := calculateModRM(memInfo, bitMode, regBits) // Pass regBits for context
+		modrmByte, sibByte, hasSIB, dispBytes, err := calculateModRM(memInfo, bitMode, regBits) // Pass regBits for context
 		if err != nil {
 			log.Printf("error: Failed to calculate ModR/M for '%s' in ModRMByValue: %v", rmOperand, err)
 			return []byte{0} // Consider returning error
 		}
 
 		out := []byte{modrmByte}
-		if sibByte != 0 { // Check if SIB byte is present
+		if hasSIB { // SIB 0x00 ([EAX+EAX]) も有効な SIB
 			out = append(out, sibByte)
 		}
 		if len(dispBytes) > 0 {
@@ -231,7 +241,7 @@ func ModRMByValue(modeStr string, regValue int, rmOperand string, bitMode cpu.Bi
 // calculateModRM は MemoryInfo から ModR/M, SIB, Displacement を計算する
 // regBits は ModR/M の reg フィールド (ビット3-5)
 // TODO: SIBバイトの処理を実装する
-func calculateModRM(mem *ng_operand.MemoryInfo, bitMode cpu.BitMode, regBits byte) (modrmByte byte, sibByte byte, dispBytes []byte, err error) {
+func calculateModRM(mem *ng_operand.MemoryInfo, bitMode cpu.BitMode, regBits byte) (modrmByte byte, sibByte byte, hasSIB bool, dispBytes []byte, err error) {
 	var mod byte
 	var rm byte
 	disp := mem.Displacement
@@ -249,8 +259,17 @@ func calculateModRM(mem *ng_operand.MemoryInfo, bitMode cpu.BitMode, regBits byt
 		mod = 0b10000000
 	}
 
+	// アドレス幅は使われているレジスタで決まる (レジスタが無ければモードの既定)。
+	// 67h プレフィックスは呼び出し側が ng_operand.Require67h() に基づいて付ける。
+	use16 := bitMode == cpu.MODE_16BIT
+	if is16BitAddrRegister(mem.BaseReg) || is16BitAddrRegister(mem.IndexReg) {
+		use16 = true
+	} else if is32BitRegister(mem.BaseReg) || is32BitRegister(mem.IndexReg) {
+		use16 = false
+	}
+
 	// --- 16-bit Addressing (Table 2-1) ---
-	if bitMode == cpu.MODE_16BIT {
+	if use16 {
 		sibByte = 0 // No SIB in 16-bit mode
 		switch {
 		case mem.BaseReg == "BX" && mem.IndexReg == "SI":
@@ -294,7 +313,7 @@ func calculateModRM(mem *ng_operand.MemoryInfo, bitMode cpu.BitMode, regBits byt
 				goto calculate_32bit_addressing
 			}
 			// Original default case for unsupported 16-bit modes
-			return 0, 0, nil, fmt.Errorf("unsupported 16-bit addressing mode: Base=%s, Index=%s", mem.BaseReg, mem.IndexReg)
+			return 0, 0, false, nil, fmt.Errorf("unsupported 16-bit addressing mode: Base=%s, Index=%s", mem.BaseReg, mem.IndexReg)
 		}
 
 		// Adjust mod if displacement exists but mod is currently 00 (except for direct address)
@@ -316,7 +335,7 @@ func calculateModRM(mem *ng_operand.MemoryInfo, bitMode cpu.BitMode, regBits byt
 			}
 		}
 		modrmByte = mod | regBits | rm
-		return modrmByte, sibByte, dispBytes, nil
+		return modrmByte, sibByte, false, dispBytes, nil
 	}
 
 calculate_32bit_addressing: // Label for the 32-bit logic start
@@ -354,7 +373,7 @@ calculate_32bit_addressing: // Label for the 32-bit logic start
 	case mem.BaseReg == "EDI" && mem.IndexReg == "":
 		rm = 0b111
 	default:
-		return 0, 0, nil, fmt.Errorf("unsupported 32-bit addressing mode: Base=%s, Index=%s", mem.BaseReg, mem.IndexReg)
+		return 0, 0, false, nil, fmt.Errorf("unsupported 32-bit addressing mode: Base=%s, Index=%s", mem.BaseReg, mem.IndexReg)
 	}
 
 	// Adjust mod if displacement exists but mod is currently 00 (except for direct address and [EBP] cases)
@@ -381,7 +400,7 @@ calculate_32bit_addressing: // Label for the 32-bit logic start
 			scale = 0b11000000
 		default:
 			if mem.Scale != 0 { // Allow scale 0 if index is not present
-				return 0, 0, nil, fmt.Errorf("invalid SIB scale: %d", mem.Scale)
+				return 0, 0, false, nil, fmt.Errorf("invalid SIB scale: %d", mem.Scale)
 			}
 			scale = 0b00000000 // Default to scale 1 if scale is 0 or index is empty
 		}
@@ -389,42 +408,30 @@ calculate_32bit_addressing: // Label for the 32-bit logic start
 		var indexNum int = 4 // Default to index=none (ESP encoding)
 		if mem.IndexReg != "" {
 			if mem.IndexReg == "ESP" {
-				return 0, 0, nil, fmt.Errorf("ESP cannot be used as an index register in SIB")
+				return 0, 0, false, nil, fmt.Errorf("ESP cannot be used as an index register in SIB")
 			}
 			indexNum, err = GetRegisterNumber(mem.IndexReg)
 			if err != nil {
-				return 0, 0, nil, fmt.Errorf("invalid index register in SIB: %s", mem.IndexReg)
+				return 0, 0, false, nil, fmt.Errorf("invalid index register in SIB: %s", mem.IndexReg)
 			}
 		}
 
-		var baseNum int = 5 // Default to base=none ([disp32] or [EBP+disp] if mod=00)
+		var baseNum int = 5 // base=101 with mod=00 means "no base, disp32 follows"
 		if mem.BaseReg != "" {
 			baseNum, err = GetRegisterNumber(mem.BaseReg)
 			if err != nil {
-				return 0, 0, nil, fmt.Errorf("invalid base register in SIB: %s", mem.BaseReg)
+				return 0, 0, false, nil, fmt.Errorf("invalid base register in SIB: %s", mem.BaseReg)
 			}
-		}
-
-		// Handle special case: mod=00 and base=EBP ([EBP+index*scale+disp32])
-		// In this case, base field must be 5 (EBP), and a disp32 is always present.
-		if mod == 0b00000000 && baseNum == 5 { // baseNum 5 corresponds to EBP
-			// Base field remains 5, mod remains 00.
-			// Ensure disp32 is handled correctly later.
-			hasDisp = true // This combination always requires disp32
-		} else if mem.BaseReg == "" { // No base register specified, implies base=EBP if mod=00
-			// If there's no base register explicitly, and mod is 00,
-			// the base field in SIB must be 5 (meaning disp32 follows).
-			if mod == 0b00000000 {
-				baseNum = 5
-				hasDisp = true // Requires disp32
+			// [EBP+index*scale] without displacement: mod=00/base=101 would drop EBP, so use disp8=0
+			if baseNum == 5 && mod == 0b00000000 {
+				mod = 0b01000000
+				disp = 0
+				hasDisp = true
 			}
-			// If mod is 01 or 10, baseNum should reflect the actual base register (or lack thereof).
-			// If BaseReg is truly empty, baseNum should technically be 5,
-			// but the ModRM calculation logic might have already set mod to 01/10 based on displacement.
-			// Let's stick with baseNum=5 if BaseReg is empty for SIB calculation.
-			if mem.BaseReg == "" {
-				baseNum = 5
-			}
+		} else {
+			// index without base: always mod=00, base=101 and a disp32, whatever the displacement value
+			mod = 0b00000000
+			hasDisp = true
 		}
 
 		sibByte = scale | (byte(indexNum) << 3) | byte(baseNum)
@@ -456,7 +463,7 @@ calculate_32bit_addressing: // Label for the 32-bit logic start
 	}
 
 	modrmByte = mod | regBits | rm
-	return modrmByte, sibByte, dispBytes, nil
+	return modrmByte, sibByte, needsSIB, dispBytes, nil
 }
 
 // GetRegisterNumber はレジスタ名からレジスタ番号（0-7）を取得する
